@@ -81,17 +81,22 @@ fn c10_cow_sequence() {
         } else {
             assert!(r.is_ok());
             assert!(entry_after == spec::COPIED | host);
-            assert!(env.get_rec(2).kind == K_FLUSH_REFCOUNT);
-            let w = env.get_rec(3);
-            assert!(w.kind == K_BACKEND_WRITE && w.off == 0x50000 && w.len == 512);
+            // order: data, then refcounts, then the L2 slice, then the release (other requests in
+            // between are tolerated)
+            let (i_data, i_rc, i_l2) = (env.first(K_LEAF_DATA), env.first(K_FLUSH_REFCOUNT), env.first(K_BACKEND_WRITE));
+            assert!(i_data < i_rc && i_rc < i_l2 && i_l2 < n);
+            let w = env.get_rec(i_l2);
+            assert!(w.off == 0x50000 && w.len == 512);
             assert!(!h.is_dirty() && env.need_flush_meta());
             if seen_d.kind == spec::Kind::Compressed {
-                assert!(n == 5);
-                let f = env.get_rec(4);
+                assert!(env.count(K_FREE) == 1);
+                let i_free = env.first(K_FREE);
+                assert!(i_l2 < i_free);
+                let f = env.get_rec(i_free);
                 let (first, cnt) = spec::l2_allocation(seen, cb);
-                assert!(f.kind == K_FREE && f.off == first && f.len as u64 == cnt);
+                assert!(f.off == first && f.len as u64 == cnt);
             } else {
-                assert!(n == 4);
+                assert!(env.count(K_FREE) == 0);
             }
         }
     }
